@@ -49,6 +49,11 @@ def build_unit(name, unit):
         spec_text = spec_text.replace("@" + k + "@", v)
     parts = ["// GENERATED on every run by /verif/lib/verus_run.py from " + main_src + " -- do not edit\n",
              "use vstd::prelude::*;\nverus! {\n", spec_text, "\n"]
+    for ename in unit.get("enums", []):
+        parts.append(X.find_enum(src_of(main_src), ename) + "\n")
+        log["functions"].append({"name": "enum " + ename, "file": main_src, "verbatim": True})
+    for cname in unit.get("consts_verbatim", []):
+        parts.append(X.find_const_item(src_of(main_src), cname) + "\n")
     groups = {}
     for it in unit["items"]:
         rel = it.get("src", main_src)
@@ -65,6 +70,9 @@ def build_unit(name, unit):
                 repl = repl.replace("@" + k + "@", v)
             rw.append((pat, repl, why))
         recipe["rewrite"] = rw
+        for k, v in consts.items():
+            if recipe.get("spec"):
+                recipe["spec"] = recipe["spec"].replace("@" + k + "@", v)
         text = X.render_fn(fn, recipe, log)
         groups.setdefault(it.get("impl"), []).append(text)
         qn = (it["impl"] + "::" if it.get("impl") else "") + it["fn"]
@@ -129,6 +137,11 @@ def run_unit(name, unit, timeout=300):
         res["notes"].append("verus produced no JSON: " + p.stderr[-2000:])
         return res
     vr = out.get("verification-results", {})
+    if re.search(r"^error\[E\d+\]", p.stderr, re.M):
+        res["status"] = "undecided"
+        res["stderr_tail"] = p.stderr[-6000:]
+        res["notes"].append("rustc/Verus front end rejected the extracted text: " + p.stderr[-2500:])
+        return res
     res["stderr_tail"] = p.stderr[-6000:]
     if vr.get("encountered-vir-error") or "verified" not in vr:
         res["status"] = "undecided"
